@@ -1,0 +1,8 @@
+//go:build verif
+
+package drc
+
+// Contracts for the deductive checker in /verif (comment-only file).
+
+//vc:func Main
+//vc:  assert[C11] at "device.ApproveOrCompare(" @compareFlagSelectsPath flagName(isCompare) == "compare" && arg0 == deref(isCompare)
